@@ -164,14 +164,33 @@ class Module:
         body = s.tree.body
         node = None
         for p in qual.split('.'):
-            for n in body:
-                if isinstance(n, (ast.ClassDef, ast.FunctionDef)) and n.name == p:
-                    node = n
-                    body = n.body
-                    break
-            else:
+            hits = [n for n in body if isinstance(n, (ast.ClassDef, ast.FunctionDef)) and n.name == p]
+            if not hits:
                 return None
+            # the name must be bound exactly once in its scope: a second def, or an assignment / import that rebinds it
+            # (f = cache(f)), would make the text read here differ from the function that runs
+            others = [n for n in body if n is not hits[0] and p in Module.bound_names(n)]
+            node = hits[0]
+            if others:
+                node._rebound = others[0].lineno
+            body = node.body
         return node
+
+    @staticmethod
+    def bound_names(n):
+        if isinstance(n, (ast.FunctionDef, ast.ClassDef, ast.AsyncFunctionDef)):
+            return {n.name}
+        out = set()
+        if isinstance(n, (ast.Assign, ast.AugAssign, ast.AnnAssign)):
+            for t in (n.targets if isinstance(n, ast.Assign) else [n.target]):
+                out |= {x.id for x in ast.walk(t) if isinstance(x, ast.Name)}
+        elif isinstance(n, (ast.Import, ast.ImportFrom)):
+            out |= {(a.asname or a.name).split('.')[0] for a in n.names}
+        elif isinstance(n, (ast.If, ast.Try, ast.With, ast.For, ast.While)):
+            for x in ast.walk(n):
+                if x is not n and isinstance(x, (ast.FunctionDef, ast.ClassDef, ast.Assign, ast.AugAssign, ast.AnnAssign, ast.Import, ast.ImportFrom)):
+                    out |= Module.bound_names(x)
+        return out
 
     def segment(s, node):
         return ast.get_source_segment(s.src, node)
@@ -2803,6 +2822,11 @@ class VCGen:
         c['_consts'] = mod.consts
         c.setdefault('locals', {})
         c.setdefault('ensures', [])
+        if getattr(fn, '_rebound', None):
+            raise Unsupported(f'{qual}: the name is bound again at line {fn._rebound}; the contract is about the first definition only')
+        for d_ in fn.decorator_list:       # a decorator may replace the body altogether (caching, wrapping): only the two inert ones are read through
+            if not (isinstance(d_, ast.Name) and d_.id in ('staticmethod', 'classmethod')):
+                raise Unsupported(f'{qual} is decorated with {ast.unparse(d_)}: the contract is about the undecorated body')
         c['_loopnum'], c['_compnum'] = s.number_nodes(fn)
         for k in c.get('loops', {}):
             if k not in c['_loopnum'].values():
